@@ -7,7 +7,7 @@ from props.common import gen_strategy, quiet_logging, Violations, set_knob
 from worlds.full import FullWorld
 
 ID = 'C22'
-TIERS = {'quick': {'runs': 6000, 'budget_s': 55, 'wall_cap': 120, 'block': 60},
+TIERS = {'quick': {'runs': 18000, 'budget_s': 55, 'wall_cap': 120, 'block': 60},
          'thorough': {'runs': 600000, 'budget_s': 840, 'wall_cap': 200, 'block': 60}}
 SHRINK_LISTS = ['ops', 'events', 'keys']
 COVERAGE_RULE = ('one run = a ring of 3-6 nodes x 1-4 tokens in 1-2 datacenters and 1-3 racks, keyspaces with SimpleStrategy (rf 1..n+1) '
